@@ -1,5 +1,9 @@
 #![allow(dead_code)]
+mod backends;
 mod engine;
+mod gens;
+mod props;
+mod keypool;
 mod refmodel;
 mod rng;
 mod selftest;
@@ -16,6 +20,38 @@ fn main() {
             for e in &errs { println!("MODEL-MISMATCH {e}"); }
             println!("selftest: {n} vectors, {} mismatches, {:.2}s", errs.len(), t.elapsed().as_secs_f64());
             std::process::exit(if errs.is_empty() {0} else {2});
+        }
+        Some("run") => {
+            let id = args.get(2).cloned().unwrap_or_default();
+            let tier = match args.get(3).map(|s| s.as_str()) {
+                Some("thorough") => engine::Tier::Thorough,
+                _ => engine::Tier::Quick,
+            };
+            let seed: u64 = std::env::var("VERIF_SEED").ok().and_then(|s| s.parse().ok()).unwrap_or(20261002);
+            let only = std::env::var("PV_ONLY").ok();
+            let verif_dir = std::env::var("VERIF_DIR").unwrap_or_else(|_| "/verif".into());
+            // the model must reproduce the upstream vectors before anything is judged
+            let (n, errs) = selftest::run(false);
+            if !errs.is_empty() {
+                for e in &errs { println!("INCONCLUSIVE reference model self-test failed: {e}"); }
+                std::process::exit(2);
+            }
+            let _ = n;
+            let Some(def) = props::def(&id) else {
+                println!("INCONCLUSIVE unknown property {id}");
+                std::process::exit(2);
+            };
+            std::process::exit(engine::run_property(def, tier, seed, &verif_dir, only.as_deref()));
+        }
+        Some("replay") => {
+            let path = args.get(2).cloned().unwrap_or_default();
+            let verif_dir = std::env::var("VERIF_DIR").unwrap_or_else(|_| "/verif".into());
+            let defs = props::ALL.iter().filter_map(|id| props::def(id)).collect();
+            std::process::exit(engine::replay_file(defs, &path, &verif_dir));
+        }
+        Some("genkeys") => {
+            let out = keypool::generate(8, 4);
+            std::fs::write(concat!(env!("CARGO_MANIFEST_DIR"), "/data/rsa_pool.json"), out).unwrap();
         }
         _ => { eprintln!("usage: pv selftest | run <Cxx> <quick|thorough> | replay <file>"); std::process::exit(2); }
     }
